@@ -5,9 +5,9 @@ import (
 	"fmt"
 	"strings"
 
+	"github.com/bronlabs/bron-crypto/pkg/base"
 	ds "github.com/bronlabs/bron-crypto/pkg/base/datastructures"
 	"github.com/bronlabs/bron-crypto/pkg/base/serde"
-	"github.com/bronlabs/bron-crypto/pkg/mpc"
 	"github.com/bronlabs/bron-crypto/pkg/mpc/dkg/trusteddealer"
 	"github.com/bronlabs/bron-crypto/pkg/mpc/sharing"
 	"github.com/bronlabs/bron-crypto/pkg/mpc/signatures/ecdsa/dkls23"
@@ -34,63 +34,57 @@ type dklsPsigDTO struct {
 	W sF `cbor:"w"`
 }
 
-func c01Dkls23(env *SymEnv, pol Policy, quorum []sharing.ID, msg []byte) {
-	env.AssumeDrawsNonZero()
-	env.R.SetGenericNonIdentity(true)
+type dklsTamper struct {
+	R2B func(sender sharing.ID, m *signing_bbot.Round2Broadcast[sG, sF, sF]) *signing_bbot.Round2Broadcast[sG, sF, sF]
+	R3B func(sender sharing.ID, m *signing_bbot.Round3Broadcast[sG, sF, sF]) *signing_bbot.Round3Broadcast[sG, sF, sF]
+	R3U func(sender, rcpt sharing.ID, m *signing_bbot.Round3P2P[sG, sF, sF]) *signing_bbot.Round3P2P[sG, sF, sF]
+}
+
+type dklsResult struct {
+	PSigs map[sharing.ID]*dklsPsigDTO
+	Errs  map[sharing.ID]error
+	Round map[sharing.ID]int
+	PK    sG
+}
+
+// runDkls23 deals a key with the trusted dealer and runs rounds 1–4 of every cosigner of `quorum`.
+func runDkls23(env *SymEnv, tag string, pol Policy, quorum []sharing.ID, msg []byte, tamper *dklsTamper) (*dklsResult, error) {
 	as, err := pol.Build()
 	if err != nil {
-		env.Reach("refused")
-		return
+		return nil, err
 	}
 	group := env.R.Group()
-	f := env.Field()
 	dealt, err := trusteddealer.Deal[sG, sF](group, as, env.Reader("dealer"))
 	if err != nil {
-		env.Reach("refused")
-		return
+		return nil, err
 	}
-	var pk sG
+	res := &dklsResult{PSigs: map[sharing.ID]*dklsPsigDTO{}, Errs: map[sharing.ID]error{}, Round: map[sharing.ID]int{}}
 	shards := map[sharing.ID]*dkls23.Shard[sG, sF, sF]{}
 	for id, bs := range dealt.Iter() {
 		sh, err := dklskeygen.NewShard[sG, sF, sF](bs)
-		if !env.Check("C01.dkls23/shard-ok", err == nil, fmt.Sprint(err)) {
-			return
+		if err != nil {
+			return nil, err
 		}
 		shards[id] = sh
-		pk = bs.PublicKeyValue()
+		res.PK = bs.PublicKeyValue()
 	}
-	var _ *mpc.BaseShard[sG, sF]
 	suite, err := ecdsa.NewSuite[sG, sF, sF](group, sha256.New)
-	if !env.Check("C01.dkls23/suite-ok", err == nil, fmt.Sprint(err)) {
-		return
+	if err != nil {
+		return nil, err
 	}
-	tag := fmt.Sprintf("c01d/%s/%s", pol.Name, setName(quorum))
 	ctxs, err := makeContexts(tag, quorum)
-	if !env.Check("C01.dkls23/contexts-ok", err == nil, fmt.Sprint(err)) {
-		return
+	if err != nil {
+		return nil, err
 	}
 	cos := map[sharing.ID]*signing_bbot.Cosigner[sG, sF, sF]{}
 	for _, id := range quorum {
 		c, err := guarded(func() (*signing_bbot.Cosigner[sG, sF, sF], error) {
 			return signing_bbot.NewCosigner(ctxs[id], suite, shards[id], env.Reader(fmt.Sprintf("%s/cosigner%d", tag, id)))
 		})
-		if !env.Check("C01.dkls23/cosigner-ok", err == nil, fmt.Sprint(err)) {
-			return
+		if err != nil {
+			return nil, fmt.Errorf("NewCosigner(%d): %w", id, err)
 		}
 		cos[id] = c
-	}
-	fail := func(round int, id sharing.ID, err error) {
-		// the message validators refuse a zero blinding difference ψ = φ − χ and identity points
-		// Γ_U, Γ_V, Pk: each happens with probability 1/q in an honest run (the success path must be
-		// reachable: MustReach)
-		txt := fmt.Sprintf("%+v", err)
-		for _, mz := range []string{"invalid psi", "invalid gamma u", "invalid gamma v", "invalid Pk", "cannot create partial signature"} {
-			if strings.Contains(txt, mz) {
-				env.Reach("measure-zero refusal: " + mz)
-				return
-			}
-		}
-		env.Check(fmt.Sprintf("C01.dkls23/no honest cosigner aborts (round %d)", round), false, fmt.Sprintf("cosigner %d: %v", id, err))
 	}
 	r1b := map[sharing.ID]*signing_bbot.Round1Broadcast[sG, sF, sF]{}
 	r1u := map[sharing.ID]ds.Map[sharing.ID, *signing_bbot.Round1P2P[sG, sF, sF]]{}
@@ -98,8 +92,8 @@ func c01Dkls23(env *SymEnv, pol Policy, quorum []sharing.ID, msg []byte) {
 		env.SetActor(fmt.Sprint(id))
 		b, u, err := cos[id].Round1()
 		if err != nil {
-			fail(1, id, err)
-			return
+			res.Errs[id], res.Round[id] = err, 1
+			return res, nil
 		}
 		r1b[id], r1u[id] = b, u
 	}
@@ -109,10 +103,16 @@ func c01Dkls23(env *SymEnv, pol Policy, quorum []sharing.ID, msg []byte) {
 		env.SetActor(fmt.Sprint(id))
 		b, u, err := cos[id].Round2(othersOf(id, r1b), unicastsTo(id, r1u))
 		if err != nil {
-			fail(2, id, err)
-			return
+			res.Errs[id], res.Round[id] = err, 2
+			continue
+		}
+		if tamper != nil && tamper.R2B != nil {
+			b = tamper.R2B(id, b)
 		}
 		r2b[id], r2u[id] = b, u
+	}
+	if len(res.Errs) > 0 {
+		return res, nil
 	}
 	r3b := map[sharing.ID]*signing_bbot.Round3Broadcast[sG, sF, sF]{}
 	r3u := map[sharing.ID]ds.Map[sharing.ID, *signing_bbot.Round3P2P[sG, sF, sF]]{}
@@ -120,28 +120,81 @@ func c01Dkls23(env *SymEnv, pol Policy, quorum []sharing.ID, msg []byte) {
 		env.SetActor(fmt.Sprint(id))
 		b, u, err := cos[id].Round3(othersOf(id, r2b), unicastsTo(id, r2u))
 		if err != nil {
-			fail(3, id, err)
-			return
+			res.Errs[id], res.Round[id] = err, 3
+			continue
+		}
+		if tamper != nil && tamper.R3B != nil {
+			b = tamper.R3B(id, b)
+		}
+		if tamper != nil && tamper.R3U != nil && u != nil {
+			u = mapUnicasts(u, func(rcpt sharing.ID, m *signing_bbot.Round3P2P[sG, sF, sF]) *signing_bbot.Round3P2P[sG, sF, sF] {
+				return tamper.R3U(id, rcpt, m)
+			})
 		}
 		r3b[id], r3u[id] = b, u
+	}
+	if len(res.Errs) > 0 {
+		return res, nil
+	}
+	for _, id := range quorum {
+		env.SetActor(fmt.Sprint(id))
+		ps, err := guarded(func() (*dkls23.PartialSignature[sG, sF, sF], error) {
+			return cos[id].Round4(othersOf(id, r3b), unicastsTo(id, r3u), msg)
+		})
+		if err != nil {
+			res.Errs[id], res.Round[id] = err, 4
+			continue
+		}
+		raw, err := ps.MarshalCBOR()
+		if err != nil {
+			return nil, err
+		}
+		dto, err := serde.UnmarshalCBOR[*dklsPsigDTO](raw)
+		if err != nil {
+			return nil, err
+		}
+		res.PSigs[id] = dto
+	}
+	return res, nil
+}
+
+var dklsMeasureZero = []string{"invalid psi", "invalid gamma u", "invalid gamma v", "invalid Pk", "cannot create partial signature"}
+
+func isDklsMeasureZero(err error) (string, bool) {
+	txt := fmt.Sprintf("%+v", err)
+	for _, mz := range dklsMeasureZero {
+		if strings.Contains(txt, mz) {
+			return mz, true
+		}
+	}
+	return "", false
+}
+
+func c01Dkls23(env *SymEnv, pol Policy, quorum []sharing.ID, msg []byte) {
+	env.AssumeDrawsNonZero()
+	env.R.SetGenericNonIdentity(true)
+	f := env.Field()
+	tag := fmt.Sprintf("c01d/%s/%s", pol.Name, setName(quorum))
+	res, err := runDkls23(env, tag, pol, quorum, msg, nil)
+	if err != nil {
+		env.Check("C01.dkls23/setup", false, err.Error())
+		return
+	}
+	for id, e := range res.Errs {
+		// the message validators refuse a zero blinding difference ψ = φ − χ and identity points
+		// Γ_U, Γ_V, Pk, and a zero u or w: each happens with probability 1/q in an honest run (the
+		// success path must be reachable: MustReach)
+		if mz, ok := isDklsMeasureZero(e); ok {
+			env.Reach("measure-zero refusal: " + mz)
+			return
+		}
+		env.Check(fmt.Sprintf("C01.dkls23/no honest cosigner aborts (round %d)", res.Round[id]), false, fmt.Sprintf("cosigner %d: %v", id, e))
+		return
 	}
 	var R sG
 	sumU, sumW := f.Zero(), f.Zero()
 	for i, id := range quorum {
-		env.SetActor(fmt.Sprint(id))
-		ps, err := cos[id].Round4(othersOf(id, r3b), unicastsTo(id, r3u), msg)
-		if err != nil {
-			fail(4, id, err)
-			return
-		}
-		raw, err := ps.MarshalCBOR()
-		if !env.Check("C01.dkls23/partial signature encodes", err == nil, fmt.Sprint(err)) {
-			return
-		}
-		dto, err := serde.UnmarshalCBOR[*dklsPsigDTO](raw)
-		if !env.Check("C01.dkls23/partial signature decodes", err == nil, fmt.Sprint(err)) {
-			return
-		}
+		dto := res.PSigs[id]
 		if i == 0 {
 			R = dto.R
 		} else {
@@ -149,6 +202,7 @@ func c01Dkls23(env *SymEnv, pol Policy, quorum []sharing.ID, msg []byte) {
 		}
 		sumU, sumW = sumU.Add(dto.U), sumW.Add(dto.W)
 	}
+	pk := res.PK
 	env.Reach("dkls23-partial-signatures")
 	// r_x and m exactly as the library derives them
 	rxi, err := R.AffineX()
@@ -167,11 +221,123 @@ func c01Dkls23(env *SymEnv, pol Policy, quorum []sharing.ID, msg []byte) {
 	k, x := R.Dlog(), pk.Dlog()
 	env.Valid("C01.dkls23/(Σw)·k = (m + r_x·x)·(Σu)  [ECDSA equation for s = Σw/Σu]", env.EqF(sumW.Mul(k), m.Add(rx.Mul(x)).Mul(sumU)))
 	env.Witness("C01.dkls23/Σu ≠ 0 (the aggregator can divide)", symalg.Not(env.EqF(sumU, f.Zero())))
-	// R is the sum of the cosigners' nonce commitments
-	var sumK sF = f.Zero()
-	for _, id := range quorum {
-		sumK = sumK.Add(env.Drawn(fmt.Sprintf("%s/cosigner%d", tag, id), 0))
-	}
-	_ = sumK
 	env.Reach("dkls23-done")
+}
+
+// c04Dkls23: one cosigner of a DKLs23 (bbot) signing deviates by a symbolic offset δ ≠ 0.
+func c04Dkls23(env *SymEnv, pol Policy, quorum []sharing.ID, deviator sharing.ID, kind string) {
+	env.AssumeDrawsNonZero()
+	env.R.SetGenericNonIdentity(true)
+	f := env.Field()
+	g := env.R.Group().Generator()
+	delta := env.Scalar("delta")
+	env.Assume(symalg.Not(env.EqF(delta, f.Zero())))
+	applied := false
+	tamper := &dklsTamper{}
+	identifiable := true
+	switch kind {
+	case "r2b-bigR":
+		tamper.R2B = func(sender sharing.ID, m *signing_bbot.Round2Broadcast[sG, sF, sF]) *signing_bbot.Round2Broadcast[sG, sF, sF] {
+			if sender != deviator {
+				return m
+			}
+			applied = true
+			n := *m
+			n.BigR = m.BigR.Op(g.ScalarOp(delta))
+			return &n
+		}
+	case "r3b-pk":
+		identifiable = false // the sum check cannot attribute
+		tamper.R3B = func(sender sharing.ID, m *signing_bbot.Round3Broadcast[sG, sF, sF]) *signing_bbot.Round3Broadcast[sG, sF, sF] {
+			if sender != deviator {
+				return m
+			}
+			applied = true
+			return &signing_bbot.Round3Broadcast[sG, sF, sF]{Pk: m.Pk.Op(g.ScalarOp(delta))}
+		}
+	case "r3u-gammaU", "r3u-gammaV", "r3u-atilde", "r3u-eta":
+		tamper.R3U = func(sender, rcpt sharing.ID, m *signing_bbot.Round3P2P[sG, sF, sF]) *signing_bbot.Round3P2P[sG, sF, sF] {
+			if sender != deviator {
+				return m
+			}
+			applied = true
+			n := *m
+			switch kind {
+			case "r3u-gammaU":
+				n.GammaU = m.GammaU.Op(g.ScalarOp(delta))
+			case "r3u-gammaV":
+				n.GammaV = m.GammaV.Op(g.ScalarOp(delta))
+			case "r3u-atilde":
+				mr := *m.MulR3
+				at := make([][]sF, len(mr.ATilde))
+				for i := range at {
+					at[i] = append([]sF(nil), mr.ATilde[i]...)
+				}
+				at[3][0] = at[3][0].Add(delta)
+				mr.ATilde = at
+				n.MulR3 = &mr
+			case "r3u-eta":
+				mr := *m.MulR3
+				mr.Eta = append([]sF(nil), mr.Eta...)
+				mr.Eta[0] = mr.Eta[0].Add(delta)
+				n.MulR3 = &mr
+			}
+			return &n
+		}
+	}
+	tag := fmt.Sprintf("c04d/%s/%s/%s/dev=%d", pol.Name, setName(quorum), kind, deviator)
+	res, err := runDkls23(env, tag, pol, quorum, []byte("dkls23 message"), tamper)
+	if err != nil {
+		env.Check("C04.dkls23/setup", false, err.Error())
+		return
+	}
+	if !applied {
+		env.Reach("fault-not-applied")
+		return
+	}
+	pfx := "C04.dkls23/" + kind
+	any := false
+	for _, id := range quorum {
+		if id == deviator {
+			continue
+		}
+		e, rejected := res.Errs[id]
+		if rejected {
+			if _, mz := isDklsMeasureZero(e); mz {
+				env.Reach("measure-zero refusal")
+				return
+			}
+			if pe, isPanic := e.(panicErr); isPanic {
+				env.Check(pfx+"/no honest cosigner crashes", false, fmt.Sprint(pe))
+				continue
+			}
+			any = true
+			blameOK(env, pfx, e, deviator, identifiable)
+			env.Check(pfx+"/error demands abort", base.ShouldAbort(e), fmt.Sprintf("cosigner %d: error is not an abort: %v", id, e))
+		}
+		env.Check(pfx+"/every honest cosigner rejects", rejected, fmt.Sprintf("cosigner %d accepted the deviation and produced a partial signature", id))
+	}
+	if any {
+		env.Reach("fault-injected")
+	}
+}
+
+func c04Dkls23Cases(tier string) []Case {
+	var cases []Case
+	pol := thresholdPolicy(2, idPools[1][:3])
+	q := sortedIDs(pol.IDs)[:2]
+	kinds := []string{"r2b-bigR", "r3b-pk", "r3u-gammaU", "r3u-gammaV", "r3u-atilde", "r3u-eta"}
+	devs := q[:1]
+	if tier == "thorough" {
+		devs = q
+	}
+	for _, dev := range devs {
+		for _, kind := range kinds {
+			d, k := dev, kind
+			cases = append(cases, Case{ID: fmt.Sprintf("C04/dkls23-bbot/%s/quorum=%s/dev=%d/%s", pol.Name, setName(q), d, k),
+				Desc: map[string]any{"protocol": "dkls23 signing_bbot", "policy": pol.Name, "quorum": q, "deviator": d, "fault": k, "offset": "symbolic δ≠0"},
+				Sym:  func(e *SymEnv) { c04Dkls23(e, pol, q, d, k) }, MustReach: []string{"fault-injected"}, NoConcreteValidation: true})
+		}
+	}
+	return cases
 }
